@@ -555,6 +555,8 @@ def e2e_cases(draw):
             e2[k] = e1.get(k, 'added-later')
     return {'e1': e1, 'tc': tc if use_tc else [], 'opts': opts, 'user': user,
             'e2': e2, 'backend': 'make',
+            # a regeneration that fails part-way through the toolchain file
+            'fault': draw(st.one_of(st.none(), st.integers(0, 5))),
             'cwd': draw(st.sampled_from(['src', 'bld', 'root', 'tmp'])),
             'bldspelling': draw(st.sampled_from(['abs', 'rel', 'dotdot']))}
 
@@ -618,6 +620,8 @@ def prop_e2e(rec):
             labs.add('toolchain')
         if differs:
             labs.add('ambient-differs-in-read-var')
+        if case.get('fault') is not None and case['tc']:
+            labs.add('failed-regenerate-in-history')
         labs.add('cwd:' + case['cwd'])
         labs.add('bld:' + case['bldspelling'])
         rec.case(labs, nontrivial=(
@@ -700,6 +704,21 @@ def prop_e2e(rec):
                                     case)
                 check_files('regenerate#{}'.format(i))
 
+            if case.get('fault') is not None and case['tc']:
+                # the toolchain file raises after j statements; once it is
+                # repaired nothing of the configuration may have changed
+                j = case['fault'] % (len(case['tc']) + 1)
+                sandbox.write_file(tcf, '\n'.join(
+                    case['tc'][:j] + ["raise RuntimeError('toolchain fault')"]
+                    + case['tc'][j:]) + '\n')
+                r = sandbox.run_bfg(['regenerate', bldarg], cwd, env2)
+                sandbox.write_file(tcf, '\n'.join(case['tc']) + '\n')
+                if r.rc == 0:
+                    rec.classes['faulty-toolchain-accepted'] += 1
+                else:
+                    rec.classes['failed-regenerate'] += 1
+                    check_files('failed-regenerate')
+
             r = sandbox.run_bfg(['run', '-B', bldarg, '--', 'env', '-0'], cwd,
                                 env2)
             if r.rc != 0:
@@ -732,6 +751,13 @@ def prop_e2e(rec):
                 raise Violation('e2e/env', '`env` output differs (expected, '
                                 'got): {!r}'.format(diff), case)
             check_files('env+run')
+            if case.get('fault') is not None and case['tc']:
+                r = sandbox.run_bfg(['regenerate', bldarg], cwd, env2)
+                if r.rc != 0:
+                    raise Violation('e2e/regenerate-failed', 'regenerate '
+                                    'after a failed one exited {}: {}'.format(
+                                        r.rc, r.err[-800:]), case)
+                check_files('regenerate-after-failed')
     return prop
 
 
